@@ -18,6 +18,7 @@
 
 #include <stdio.h>
 #include <stdlib.h>
+#include <math.h>
 
 #include "numeric.h"
 #include "algebra.h"
@@ -99,43 +100,31 @@ void SolveLSE(matrix *mx, dvector *solution)
 
   */
 
-  /* Reorganize the matrix in order to find the pivot != 0 in the first k row k column */
+  /* Gaussian elimination with partial pivoting: at step k the row with the largest
+   * entry in column k (rows k..n-1) is moved to row k */
   for(k = 0; k < X->row; k++){
-    if(FLOAT_EQ(X->data[k][k], 0, 1e-4)){
-      for(i = 0; i < X->row; i++){
-        if(FLOAT_EQ(X->data[i][k], 0, 1e-4) == 0){
-          /* move the row i to the null value */
-          for(j = 0; j < X->col; j++){
-            tmp = X->data[i][j];
-            X->data[i][j] = X->data[k][j];
-            X->data[k][j] = tmp;
-          }
-          break;
-        }
-        else{
-          continue;
-        }
+    size_t p = k;
+    for(i = k+1; i < X->row; i++){
+      if(fabs(X->data[i][k]) > fabs(X->data[p][k]))
+        p = i;
+    }
+
+    if(p != k){
+      for(j = 0; j < X->col; j++){
+        tmp = X->data[p][j];
+        X->data[p][j] = X->data[k][j];
+        X->data[k][j] = tmp;
       }
     }
-  }
 
-  /* (*X).row is the number of X, so is equal to the number of unknowns variables */
-  for(k = 0; k < X->row; k++){
+    if(X->data[k][k] == 0)
+      continue; /* singular: the whole column is zero */
+
     for(i = k+1; i < X->row; i++){
-      if(FLOAT_EQ(X->data[i][k], 0, 1e-4) == 0){ /* if the value is not 0 */
-        if(FLOAT_EQ(X->data[k][k], 0, 1e-4) == 1){
-          tmp = 0.f;
-        }
-        else{
-          tmp = X->data[i][k]/X->data[k][k];
-        }
-
-        for(j = 0; j < X->col; j++){
-          X->data[i][j] = (X->data[k][j] * (-tmp)) + X->data[i][j];
-        }
+      tmp = X->data[i][k]/X->data[k][k];
+      for(j = k; j < X->col; j++){
+        X->data[i][j] -= X->data[k][j] * tmp;
       }
-      else
-        continue;
     }
   }
 
@@ -144,19 +133,16 @@ void SolveLSE(matrix *mx, dvector *solution)
    DVectorResize(solution, X->row);
   }
 
+  /* back substitution */
   l = (*X).row-1;
 
   while(l > -1){
     double b = 0.f;
-    for(i = 0; i < (*X).col-1; i++){
-      if(i != l){
-        b += X->data[l][i] * solution->data[i];
-      }
-      else
-        continue;
+    for(i = l+1; i < (*X).col-1; i++){
+      b += X->data[l][i] * solution->data[i];
     }
 
-    if(FLOAT_EQ(X->data[l][l], 0, 1e-4) == 1)
+    if(X->data[l][l] == 0)
       solution->data[l] = 0.f;
     else
       solution->data[l] = (X->data[l][X->col-1] -b) / X->data[l][l];
